@@ -231,6 +231,10 @@ class TermGen:
         return ["call", "pick", [self.term(readable, depth - 1, "int"), t()], ([["b", t()]] if r.random() < 0.6 else [])]
 
     def deferred_term(self, readable, depth, kind="num"):
+        if "litexpr" in self.profile and self.rng.random() < 0.04:
+            # a definition that reads no location at all (a task without dependencies)
+            r = self.rng
+            return ["bin", r.choice(["mul", "add", "sub"]), ["litexpr", enc(r.choice(self.floats))], ["lit", enc(r.choice(self.ints))]]
         for _ in range(20):
             t = self.term(readable, depth, kind)
             if P.is_deferred(t) and t[0] != "ref" or (t[0] == "ref" and self.rng.random() < 0.3):
@@ -346,16 +350,21 @@ class HistoryGen:
             if r.random() < 0.12 and t["kind"] in ("float", "int", "bool"):
                 v = self.same_value_other_type(t, v)
             return ["set", t["path"], ["v", enc(v)]]
+        ftt = {ft["target"] for ft in s.ftasks.values()}
+        ktt = tt - ftt
         if kind == "val":
-            t = r.choice([l for l in nonleaf if s.ckey(l["path"]) not in tt])
+            # (a location written by a linear knob may also be assigned by hand: the knob adds its next increment to
+            #  whatever the location holds then)
+            t = r.choice([l for l in nonleaf if s.ckey(l["path"]) not in ftt])
             v = leaf_value(r, "float")
             if r.random() < 0.12:
                 v = self.same_value_other_type(t, v)
             return ["set", t["path"], ["v", enc(v)]]
         if kind == "iop":
-            cands = [l for l in self.locs if l["kind"] in ("float", "int") and s.ckey(l["path"]) not in tt
+            cands = [l for l in self.locs if l["kind"] in ("float", "int") and s.ckey(l["path"]) not in ftt
                      and (l["group"] != "leaf" or not self.layered or True)]
             t = r.choice(cands)
+            on_knob_target = s.ckey(t["path"]) in ktt
             isint = t["kind"] == "int" and s.ckey(t["path"]) not in s.defs
             if isint:
                 op = r.choice(["add", "sub", "mul", "and", "or", "xor", "lshift", "rshift", "floordiv", "mod"])
@@ -368,7 +377,7 @@ class HistoryGen:
                 s.stale or not isinstance(cur, (int, float)) or cur != cur or cur in (float("inf"), float("-inf")))
             # (an in-place update with an expression operand on an undefined location captures the current value as
             #  a literal: only finite numbers are literals of the expression language)
-            if r.random() < 0.6 or t["group"] == "leaf" or plain_capture:
+            if r.random() < 0.6 or t["group"] == "leaf" or plain_capture or on_knob_target:
                 v = r.choice([0, 1, 2, 3]) if op in ("lshift", "rshift", "pow") else leaf_value(r, "int" if isint else "float")
                 return ["iop", t["path"], op, ["v", enc(v)]]
             rd = self.readable_for(t)
